@@ -71,6 +71,9 @@ pub struct SimState {
     pub t_hi: f64,
     /// running hash of everything that crossed a seam
     pub hash: u64,
+    /// times of the 16 most recent S1 crossings (ring buffer) - a progress probe for the watchdog
+    pub recent_t: [f64; 16],
+    pub recent_n: u64,
     /// running hash of the S1 and S2 crossings only (what the integration itself consumed)
     pub hash12: u64,
     /// the log was cut off at REC_CAP records (oracles that need the full log must block)
@@ -177,6 +180,9 @@ impl SimIVP {
         if x > st.t_hi {
             st.t_hi = x;
         }
+        let slot = (st.recent_n % 16) as usize;
+        st.recent_t[slot] = x;
+        st.recent_n += 1;
         let mut h = st.hash;
         fnv(&mut h, 1);
         fnv(&mut h, x.to_bits());
